@@ -10,7 +10,11 @@ import random
 from model import refbridge as rb
 
 TEAM_ALPHABET = 'abcdefghijklmnopqrstuvwxyzABCDEFGHIJKLMNOPQRSTUVWXYZ0123456789 .,-_/()\'+#:'
-UNICODE_BITS = ['é', 'ü', 'Ж', '日本', '橋', '♠', 'ß', 'ñ', 'Ω', '🂡']
+UNICODE_BITS = ['é', 'ü', 'Ж', '日本', '橋', '♠', 'ß', 'ñ', 'Ω', '🂡',
+                # not stable under Unicode normalisation: a name is a sequence of code points and
+                # must come back as exactly that sequence
+                'e\u0308', 'A\u030a', '\u212b', '\u2126', '\u1100\u1161', '\uf900', '\ufb01',
+                '\u00b5', '\u1e9b\u0323']
 
 
 def gen_team_name(rng, forbid=()):
